@@ -87,7 +87,9 @@ struct Stats {
 struct Result {
     std::string verdict = "ok";   // ok | deadlock | hang | step-budget | collective-mismatch | truncation | exception | mpi-error | <harness oracle classes>
     std::string detail;
-    uint64_t hash = 0;
+    uint64_t hash = 0;        // every scheduling decision and event, with step numbers (determinism gate)
+    uint64_t p2p_hash = 0;    // order of point-to-point protocol events only (no collectives)
+    uint64_t order_hash = 0;  // order of all events except failed polls / stalls, without step numbers (interleaving signature)
     Stats st;
     std::vector<int> choices;     // choice log (values); kinds in choice_kinds
     std::vector<uint8_t> choice_kinds;
@@ -201,6 +203,8 @@ private:
     std::vector<uint8_t> choice_kinds_;
     std::vector<Event> events_;
     uint64_t hash_ = 1469598103934665603ULL;
+    uint64_t ohash_ = 1469598103934665603ULL;
+    uint64_t phash_ = 1469598103934665603ULL;
     uint64_t epoch_ = 1;
     uint64_t gseq_ = 0, reqid_ = 0;
     double now_ = 0;
